@@ -96,9 +96,14 @@ def c12(ctx):
                     pats.append((p0, fl))
         pats = sorted(set(pats), key=lambda x: (x[0], x[1] or ""))[:4000]
         if pats:
-            decs = R.impl_rule([[it] for it in pats])
+            # each pattern in both positions of a two-line file: line 0 is written with two arguments, line 1 with ONE argument when
+            # the flags are the empty string (regex.js_line), so that both call forms are decided
+            decs = R.impl_rule([[it, it] for it in pats])
             decisions = []
             for it, d in zip(pats, decs):
+                if isinstance(d, list) and len(d) == 2:
+                    # when the two call forms are decided differently the one-argument verdict is the one to compare with V8
+                    d = [d[1]]
                 d0 = d[0] if isinstance(d, (list, tuple)) and d and not isinstance(d[0], str) else d
                 if isinstance(d, tuple) and d and d[0] in ("crash", "panic", "parse_error", "odd_diag"):
                     decisions.append((it, "panic" if d[0] in ("crash", "panic") else None))
